@@ -202,10 +202,11 @@ let op_matem (args : string list) (line : string) : string =
 let op_goparse (args : string list) : string =
   let l = M.parse_go (List.map cstr args) in
   let z v = string_of_int (int_of_z v) in
-  Printf.sprintf "ponder=%d wtime=%s btime=%s winc=%s binc=%s movestogo=%s depth=%s nodes=%s mate=%s movetime=%s infinite=%d searchmoves=%s"
+  Printf.sprintf "ponder=%d wtime=%s btime=%s winc=%s binc=%s movestogo=%s depth=%s nodes=%s mate=%s movetime=%s infinite=%d searchmoves=%s clock=%d"
     (if l.M.l_ponder then 1 else 0) (z l.M.l_wtime) (z l.M.l_btime) (z l.M.l_winc) (z l.M.l_binc) (z l.M.l_movestogo) (z l.M.l_depth) (z l.M.l_nodes)
     (match l.M.l_mate with Some v -> z v | None -> "-") (z l.M.l_movetime) (if l.M.l_infinite then 1 else 0)
     (match l.M.l_searchmoves with [] -> "-" | ms -> String.concat "," (List.map ostr ms))
+    (if l.M.l_clock then 1 else 0)
 
 
 (* session <cmd> ; <cmd> ; ... : the extracted UCI-session state machine (Engine/UciSession.v); prints the FEN after every command.
